@@ -268,6 +268,36 @@ def let_bound_targets(chk):
            replay=None if bad is None else {"confirmed": True, "input": bad[1], "observed": bad[2], "expected": bad[3]})
 
 
+def user_variables_survive(chk):
+    """`so user variables keep their values across compiled constructs`, end to end: Python unbinds an except variable when the handler
+    ends, which is why Hy gives every except variable a reserved name; a user variable of the same name keeps its value whatever the
+    handler's body is (also empty), wherever the variable lives."""
+    import types
+    import hy
+    progs = {
+        '(defn f [e] (try (raise (ValueError)) (except [e ValueError])) e) (f 1)': 1,
+        '(defn f [e] (try (raise (ValueError)) (except [e ValueError] 2)) e) (f 1)': 1,
+        '(defn f [e] (try (raise (ValueError)) (except [e [ValueError KeyError]])) e) (f 1)': 1,
+        '(setv e 1) (try (raise (ValueError)) (except [e ValueError])) e': 1,
+        '(setv e 1) (try (raise (ValueError)) (except [e ValueError] (str e))) e': 1,
+        '(defn f [] (setv e 1) (try (raise (ValueError)) (except [e ValueError]) (finally None)) e) (f)': 1,
+        '(defn f [e] (try (raise (ExceptionGroup "g" [(ValueError)])) (except* [e ValueError])) e) (f 1)': 1,
+        '(defn f [e] (try (raise (KeyError)) (except [e ValueError]) (except [e KeyError])) e) (f 1)': 1,
+        '(let [e 1] (try (raise (ValueError)) (except [e ValueError])) e)': 1,
+        '(defn f [e] (setv r (try (raise (ValueError)) (except [e ValueError]))) [r e]) (f 1)': [None, 1],
+        '(defn f [x] (with [x (open "/dev/null")] None) (. x closed)) (f 1)': True,
+        '(defn f [e] (try 0 (except [e ValueError])) e) (f 1)': 1,
+    }
+    for src, want in progs.items():
+        try:
+            got = hy.eval(hy.read_many(src), module=types.ModuleType("hv_c12e"))
+        except Exception as ex:  # noqa: BLE001
+            got = f"{type(ex).__name__}: {ex}"[:160]
+        chk.case(("survive", src))
+        chk.ob(f"keep/e2e/{src}", got == want, "cpython-oracle", "proved", detail=f"{got!r}, expected {want!r}",
+               replay=None if got == want else {"confirmed": True, "input": src, "observed": repr(got), "expected": repr(want)})
+
+
 def run(chk):
     names = [n for n, e in catalog.ENTRIES.items() if catalog.supported(e) and n not in SKIP]
     chk.fn(*sorted({e.fn for e in catalog.ENTRIES.values() if e.fn}), "hy/compiler.py::HyASTCompiler.get_anon_var",
@@ -279,6 +309,7 @@ def run(chk):
     anon_var_contract(chk)
     let_names_contract(chk)
     let_bound_targets(chk)
+    user_variables_survive(chk)
     # "so user variables keep their values across compiled constructs": semantic clause, with let-bound variables
     # (whose Python names are _hy_-prefixed, like the compiler's temporaries) as operands of every sequential construct
     from hv import rules, uservars
